@@ -4,7 +4,7 @@ from fractions import Fraction as F
 import numpy as np
 from vlib.runner import Clause
 from vlib import q as Q
-from vlib.canon import close, err, finite
+from vlib.canon import close, err, finite, mat_proj_close, proj_close
 from props import _cx as C
 from props._cx import Z
 from geometry_tools import projective as P
@@ -254,12 +254,16 @@ def judge_auto(inp, obs, lr):
         return {"expected": {"chart": m["chart"]}, "observed": "GeometryError", "tags": dict(tags0, rejected_valid=True),
                 "property_failure": some_chart}
     if obs["chart"] != m["chart"]:
-        mins = np.min(np.abs(pts), axis=0)
-        if abs(mins[obs["chart"]] - mins[m["chart"]]) <= 1e-12 * (1 + mins[m["chart"]]):
-            return None           # a tie up to rounding: either chart is what the code promises
-        return {"expected": {"chart": m["chart"]}, "observed": obs["chart"], "tags": dict(tags0, chart=True),
-                "property_failure": bool(np.any(pts[:, obs["chart"]] == 0))}
-    if not same(asarr(obs["aff"], (-1, dim), cplx), C.dec(m["affine"], f).reshape(-1, dim)):
+        # WHICH chart is chosen is not part of the contract ("determine the chart automatically"): any standard chart that
+        # contains all the points is acceptable, with the coordinates of that chart
+        cc = obs["chart"]
+        if not (0 <= cc <= dim) or np.any(pts[:, cc] == 0):
+            return {"expected": {"a chart containing all points, e.g.": m["chart"]}, "observed": obs["chart"], "tags": dict(tags0, chart=True),
+                    "property_failure": True}
+        ref = np.delete(pts / pts[:, cc:cc + 1], cc, axis=-1)
+        if not same(asarr(obs["aff"], (-1, dim), cplx), ref):
+            return {"expected": ref.tolist(), "observed": obs["aff"], "tags": dict(tags0, values=True), "property_failure": True}
+    elif not same(asarr(obs["aff"], (-1, dim), cplx), C.dec(m["affine"], f).reshape(-1, dim)):
         return {"expected": m["affine"], "observed": obs["aff"], "tags": dict(tags0, values=True)}
     if not obs.get("explicit_same", True):
         return {"expected": "same coordinates as with the chosen chart passed explicitly", "observed": "different",
@@ -330,9 +334,10 @@ def judge_maps(inp, obs, lr):
             return {"expected": "model answer", "observed": r, "tags": dict(tags0, driver_err=r["err"])}
     m1, m2, ma = lr[0]["ok"], lr[1]["ok"], lr[2]["ok"]
     N = dim + 1
-    if not same(asarr(obs["T"], (N, N), cplx), C.dec(m1["T"], f)):
+    # a projective transformation and the image of a projective point are defined up to a non-zero scalar
+    if not mat_proj_close(asarr(obs["T"], (N, N), cplx).astype(complex), C.dec(m1["T"], f).astype(complex), 1e-9):
         return {"expected": m1["T"], "observed": obs["T"], "tags": dict(tags0, site="affine_linear_map.proj_data")}
-    if not same(asarr(obs["img"], (-1, N), cplx), C.dec(m1["images"], f).reshape(-1, N)):
+    if not proj_close(asarr(obs["img"], (-1, N), cplx).astype(complex), C.dec(m1["images"], f).reshape(-1, N).astype(complex), 1e-9):
         return {"expected": m1["images"], "observed": obs["img"], "tags": dict(tags0, site="affine_linear_map@Point")}
     # the property on the implementation: acts as L in the chart
     a = C.dec(ma["affine"], f).reshape(-1, dim)
@@ -343,10 +348,10 @@ def judge_maps(inp, obs, lr):
                 "property_failure": True}
     Sm = C.dec(m2["T"], f)
     Spy = asarr(obs["S"], (N, N), obs["S_complex"])
-    if not same(Spy.astype(complex), Sm.astype(complex)):
+    if not mat_proj_close(Spy.astype(complex), Sm.astype(complex), 1e-9):
         return {"expected": m2["T"], "observed": obs["S"], "tags": dict(tags0, site="affine_translation.proj_data"),
                 "property_failure": True}
-    if not same(asarr(obs["img2"], (-1, N), cplx or obs["S_complex"]).astype(complex), C.dec(m2["images"], f).reshape(-1, N).astype(complex)):
+    if not proj_close(asarr(obs["img2"], (-1, N), cplx or obs["S_complex"]).astype(complex), C.dec(m2["images"], f).reshape(-1, N).astype(complex), 1e-9):
         return {"expected": m2["images"], "observed": obs["img2"], "tags": dict(tags0, site="affine_translation@Point")}
     want2 = a + t
     got2 = obs["img2_aff"]
@@ -418,18 +423,15 @@ def judge_hyp(inp, obs, lr):
     mx = lambda k: float(np.max(np.abs(Q.decf(r[k]))))
     scale = 1 + max(abs(float(F(x))) for x in inp["normal"])
     contract = {"qr_orth": mx("qr_orth"), "qr_col": mx("qr_col") / scale, "inv_resid": mx("inv_resid")}
-    if max(contract.values()) > 1e-9:
-        return {"expected": "QR / inverse contract residuals ≤ 1e-9", "observed": contract, "tags": {"contract": True}}
-    if mx("T_minus_iso") > 1e-9:
-        return {"expected": {"T = sign(r00)*Q": r["iso"]}, "observed": obs["Tf"], "tags": {"site": "hyperplane_coordinate_transform"}}
+    model_applies = max(contract.values()) <= 1e-9 and mx("T_minus_iso") <= 1e-9
+    # if the observed factors do not satisfy the contract, or the result is not sign(r00)*Q, the implementation computes
+    # the transformation some other way: only the public contract (orthogonal, first column parallel to the normal) is judged
     if mx("orth") > 1e-9:
         return {"expected": "orthogonal T", "observed": mx("orth"), "tags": {"site": "orthogonal"}, "property_failure": True}
     # conclusion of hyperplaneTransform_spec on the implementation's output: first column ∥ normal, positive
-    T = np.array(obs["Tf"])
-    nv = np.array([float(F(x)) for x in inp["normal"]])
     col = T[:, 0] * np.linalg.norm(nv)
-    if not close(col, nv, 1e-9):
-        return {"expected": {"first column * |n|": nv.tolist()}, "observed": col.tolist(), "tags": {"site": "first_column"},
+    if not (close(col, nv, 1e-9) or close(-col, nv, 1e-9)):
+        return {"expected": {"first column * |n| = ± normal": nv.tolist()}, "observed": col.tolist(), "tags": {"site": "first_column"},
                 "property_failure": True}
     return None
 
@@ -478,9 +480,11 @@ def run_inter(inp):
     seen = {}
     orig = U.kernel
 
+    calls = []
+
     def spy(mat, *a, **kw):
         k = orig(mat, *a, **kw)
-        seen["ker"] = np.array(k)
+        calls.append((np.asarray(mat).shape, np.array(k)))
         return k
     U.kernel = spy
     try:
@@ -488,10 +492,15 @@ def run_inter(inp):
     finally:
         U.kernel = orig
     res = np.asarray(R.proj_data)
-    ker = seen["ker"]
     cplx = f == "QI"
-    return {"shape": list(res.shape), "res": tolist(res.astype(complex) if cplx else res),
-            "ker_shape": list(ker.shape), "ker": tolist(ker.astype(complex) if cplx else ker)}
+    out = {"shape": list(res.shape), "res": tolist(res.astype(complex) if cplx else res)}
+    # the kernel-contract model applies only when the implementation takes ONE kernel of the stacked spanning sets
+    # (shape (..., n, k1+k2)); any other way of computing the intersection is judged on the public result alone
+    k1, k2, amb = inp["k1"], inp["k2"], inp["amb"]
+    if len(calls) == 1 and tuple(calls[0][0][-2:]) == (amb, k1 + k2) and calls[0][1].shape[-2] == k1 + k2:
+        ker = calls[0][1]
+        out.update(ker_shape=list(ker.shape), ker=tolist(ker.astype(complex) if cplx else ker))
+    return out
 
 
 def _pairs(inp):
@@ -502,7 +511,7 @@ def _pairs(inp):
 
 
 def lean_inter(inp, obs):
-    if "exc" in obs:
+    if "exc" in obs or "ker" not in obs:
         return []
     f = inp["field"]
     cplx = f == "QI"
@@ -539,9 +548,20 @@ def judge_inter(inp, obs, lr):
                 "property_failure": True}
     if d == 0:
         return None
-    if len(lr) != len(pairs):
-        return {"expected": f"{len(pairs)} kernels", "observed": obs["ker_shape"], "tags": dict(tags0, site="kernel_shape")}
     res = asarr(obs["res"], (-1, d, amb), cplx)
+    if len(res) != len(pairs):
+        return {"expected": f"{len(pairs)} units", "observed": obs["shape"], "tags": dict(tags0, site="units"), "property_failure": True}
+    # the public contract, on exact rational inputs: every unit has independent rows lying in both subspaces
+    Aall, Ball = C.dec(inp["A"], f).astype(complex), C.dec(inp["B"], f).astype(complex)
+    for u, (i, j) in enumerate(pairs):
+        ok = (np.linalg.matrix_rank(res[u], tol=1e-9) == d and
+              np.linalg.matrix_rank(np.vstack([Aall[i], res[u]]), tol=1e-9) == k1 and
+              np.linalg.matrix_rank(np.vstack([Ball[j], res[u]]), tol=1e-9) == k2)
+        if not ok:
+            return {"expected": "independent rows lying in both subspaces (unit %d = self[%d] ∩ other[%d])" % (u, i, j),
+                    "observed": res[u].tolist(), "tags": dict(tags0, site="Subspace.intersect", unit=u), "property_failure": True}
+    if len(lr) != len(pairs):
+        return None          # computed without the single stacked kernel: nothing more to compare
     for u, r in enumerate(lr):
         if "err" in r:
             return {"expected": "model answer", "observed": r, "tags": dict(tags0, driver_err=r["err"])}
@@ -668,8 +688,11 @@ def lean_eig(inp, obs):
             "eigenvalue": inp["eigenvalue"]}]
     Pm = C.dec(inp["units"], inp["field"]).astype(complex)
     Mi = asarr(obs["Mi"], (nu, m, m), True)
+    Mfr = asarr(obs["M"], (nu, m, m), True)
     for u in range(nu):
-        ops.append({"op": "c16.diag", "field": "QI", "m": m, "V": C.enc(V[u].tolist(), "QI"),
+        # the diagonalising frame is not unique (order, scale of the eigenvectors): the model is evaluated on the frame the
+        # implementation returned (stored as the transpose of the column frame) and on the inverse it returned
+        ops.append({"op": "c16.diag", "field": "QI", "m": m, "V": C.enc(Mfr[u].T.tolist(), "QI"),
                     "W": C.enc(Mi[u].tolist(), "QI"), "P": C.enc(Pm[u].tolist(), "QI")})
     return ops
 
@@ -683,48 +706,51 @@ def judge_eig(inp, obs, lr):
     tags0["complex_eig"] = obs["eig_complex"]
     f2 = "QI" if (obs["eig_complex"] or inp["field"] == "QI") else "Q"
     r0 = lr[0]
-    if "err" in r0:
-        if r0["err"] == "GeometryError":
-            if obs["vec"] != "GeometryError":
-                return {"expected": "GeometryError (no eigenvalue passes the mask)", "observed": obs["vec"],
-                        "tags": dict(tags0, site="eigenvector_error")}
-        else:
-            return {"expected": "model answer", "observed": r0, "tags": dict(tags0, driver_err=r0["err"])}
-    else:
-        if obs["vec"] == "GeometryError":
-            return {"expected": r0["ok"], "observed": "GeometryError", "tags": dict(tags0, site="eigenvector_error"),
-                    "property_failure": True}
+    if "err" in r0 and r0["err"] != "GeometryError":
+        return {"expected": "model answer", "observed": r0, "tags": dict(tags0, driver_err=r0["err"])}
+    # Which eigenvector is reported (first match, scale, sign) is not part of the property, and neither is the way the
+    # eigen-decomposition is obtained.  If the implementation's answer is the model's selection from the observed
+    # np.linalg.eig output, fine; otherwise the answer is judged on the public contract with the EXACT spectrum of the
+    # generated matrices: v·P = λ·v with λ the requested eigenvalue; zero vector / GeometryError exactly when no
+    # eigenvalue passes the mask.
+    ev = None if inp["eigenvalue"] is None else float(F(inp["eigenvalue"]))
+    Pm = C.dec(inp["units"], inp["field"]).astype(complex)
+    def has_match(u):
+        if ev is None:
+            return True
+        return any(l is not None and abs(float(F(l)) - ev) <= 1e-8 + 1e-5 * abs(ev) for l in inp["lams"][u])
+    agrees = False
+    if "ok" in r0 and obs["vec"] != "GeometryError":
         mv = C.dec(r0["ok"], f2).astype(complex).reshape(-1, m)
-        pv = asarr(obs["vec"], (-1, m), True)
-        if not same(pv, mv, 1e-12):
-            vals = asarr(obs["vals"], (nu, m), True)
-            Vobs = asarr(obs["V"], (nu, m, m), True)
-            # a different choice among the eigenvectors whose eigenvalue passes the mask is still what the
-            # property asks for (which one is reported is not part of the property): accept it
-            ev = None if inp["eigenvalue"] is None else float(F(inp["eigenvalue"]))
-            def acceptable(u):
-                mask = np.ones(m, dtype=bool) if ev is None else np.isclose(vals[u], ev)
-                if not mask.any():
-                    return bool(np.max(np.abs(pv[u])) == 0)
-                return any(mask[l] and same(pv[u], Vobs[u][:, l], 1e-12) for l in range(m))
-            if all(acceptable(u) for u in range(nu)):
-                return None
-            # otherwise: does the property itself fail?
-            Pm = C.dec(inp["units"], inp["field"]).astype(complex)
+        agrees = same(asarr(obs["vec"], (-1, m), True), mv, 1e-12)
+    if "err" in r0 and obs["vec"] == "GeometryError":
+        agrees = True
+    if not agrees:
+        if obs["vec"] == "GeometryError":
+            if inp["ncomp"] > 0 or has_match(0):
+                return {"expected": "an eigenvector (an eigenvalue passes the mask)" if has_match(0) else "zero vectors, no error, for composites",
+                        "observed": "GeometryError", "tags": dict(tags0, site="eigenvector_error"), "property_failure": True}
+        else:
+            pv = asarr(obs["vec"], (-1, m), True)
             img = asarr(obs["image"], (-1, m), True)
-            bad = False
             for u in range(nu):
                 v, w = pv[u], img[u]
                 if np.max(np.abs(v)) == 0:
+                    if has_match(u) or inp["ncomp"] == 0:
+                        return {"expected": "a non-zero eigenvector", "observed": obs["vec"], "tags": dict(tags0, site="zero_vector", unit=u),
+                                "property_failure": True}
                     continue
+                if not has_match(u):
+                    return {"expected": "no eigenvector reported: no eigenvalue passes the mask", "observed": obs["vec"],
+                            "tags": dict(tags0, site="eigenvector_error", unit=u), "property_failure": True}
                 k = int(np.argmax(np.abs(v)))
                 lam = w[k] / v[k]
-                if np.max(np.abs(w - lam * v)) > 1e-7 * (1 + np.max(np.abs(w))):
-                    bad = True
+                if np.max(np.abs(w - lam * v)) > 1e-7 * np.max(np.abs(v)) * (1 + np.max(np.abs(Pm[u]))):
+                    return {"expected": "v·P = λ·v", "observed": obs["vec"], "tags": dict(tags0, site="eigenvector", not_an_eigenvector=True, unit=u),
+                            "property_failure": True}
                 if ev is not None and abs(lam - ev) > 1e-4 * (1 + abs(ev)):
-                    bad = True        # an eigenvector, but not for the requested eigenvalue
-            return {"expected": {"selected": r0["ok"]}, "observed": obs["vec"],
-                    "tags": dict(tags0, site="eigenvector", not_an_eigenvector=bad), "property_failure": bad}
+                    return {"expected": "an eigenvector for the requested eigenvalue %r" % ev, "observed": {"eigenvalue": [lam.real, lam.imag]},
+                            "tags": dict(tags0, site="eigenvector", wrong_eigenvalue=True, unit=u), "property_failure": True}
     Pm = C.dec(inp["units"], inp["field"]).astype(complex)
     Mpy = asarr(obs["M"], (nu, m, m), True)
     Dpy = asarr(obs["D"], (nu, m, m), True)
@@ -733,8 +759,6 @@ def judge_eig(inp, obs, lr):
         if "err" in r:
             return {"expected": "model answer", "observed": r, "tags": dict(tags0, driver_err=r["err"])}
         r = r["ok"]
-        if not same(Mpy[u], C.dec(r["M"], "QI"), 1e-12):
-            return {"expected": r["M"], "observed": Mpy[u].tolist(), "tags": dict(tags0, site="diagonalize.proj_data")}
         scale = 1 + np.max(np.abs(Pm[u]))
         if not close(Dpy[u], C.dec(r["conj"], "QI"), 1e-8 * scale):
             return {"expected": r["conj"], "observed": Dpy[u].tolist(), "tags": dict(tags0, site="M.inv()@T@M")}
@@ -1187,12 +1211,12 @@ def run_iso16(inp):
             ref = np.eye(dim + 1, dtype=complex)
             ref[c] = np.insert(wide(snap).astype(complex), c, 1)
             M = np.asarray(T.proj_data)
-            check(np.array_equal(t, snap) and M.dtype != object and err(M.astype(complex), ref) <= tol, idx, st, "affine_translation matrix / argument")
+            check(np.array_equal(t, snap) and M.dtype != object and mat_proj_close(M.astype(complex), ref, tol), idx, st, "affine_translation matrix / argument")
             _mut(M, st["mutate"])               # in-place change of one object's data must not leak into the next object
             t2 = _rnd(r, (dim,), dt)
             ref2 = np.eye(dim + 1, dtype=complex)
             ref2[c] = np.insert(wide(t2).astype(complex), c, 1)
-            check(err(np.asarray(P.affine_translation(t2, chart_index=c).proj_data).astype(complex), ref2) <= tol, idx, st,
+            check(mat_proj_close(np.asarray(P.affine_translation(t2, chart_index=c).proj_data).astype(complex), ref2, tol), idx, st,
                   "affine_translation after mutating the previous object's matrix")
         elif kind == "linmap":
             L = _rnd(r, (dim, dim), dt)
@@ -1203,10 +1227,10 @@ def run_iso16(inp):
             blk[np.ix_(keep, keep)] = wide(snap)
             ref = blk.T if st["cv"] else blk
             M = np.asarray(T.proj_data)
-            check(np.array_equal(L, snap) and err(M.astype(complex), ref) <= tol, idx, st, "affine_linear_map matrix / argument")
+            check(np.array_equal(L, snap) and mat_proj_close(M.astype(complex), ref, tol), idx, st, "affine_linear_map matrix / argument")
             _mut(M, st["mutate"])
             check(np.array_equal(L, snap), idx, st, "affine_linear_map argument aliased by the object")
-            check(err(np.asarray(P.affine_linear_map(L, chart_index=c, column_vectors=st["cv"]).proj_data).astype(complex), ref) <= tol,
+            check(mat_proj_close(np.asarray(P.affine_linear_map(L, chart_index=c, column_vectors=st["cv"]).proj_data).astype(complex), ref, tol),
                   idx, st, "affine_linear_map after mutating the previous object's matrix")
         elif kind == "hyp":
             nv = r.normal(size=dim + 1) * 10.0 ** r.integers(-3, 4)
@@ -1349,9 +1373,13 @@ def _hist_transformation(inp, bad):
     T = P.Transformation(cur.copy())
     copies = []          # (object, data it must still have) for copies that must be independent of rebinding operations
     target = 0.75
-    def differential(obj, data, what):
+    def differential(obj, data, what, projective=False):
         d = np.asarray(obj.proj_data)
-        if d.shape != data.shape or not np.all(np.abs(d - data) <= 1e-12 * (1 + np.abs(data))):
+        if projective:      # inverses and products of projective transformations are defined up to a scalar per unit
+            okd = d.shape == data.shape and mat_proj_close(d.astype(complex), data.astype(complex), 1e-10)
+        else:
+            okd = d.shape == data.shape and bool(np.all(np.abs(d - data) <= 1e-12 * (1 + np.abs(data))))
+        if not okd:
             bad.append([what, "object data differs from the tracked data"])
             return
         qa, qb = _eig_queries(obj, target), _eig_queries(P.Transformation(np.array(d, copy=True)), target)
@@ -1398,14 +1426,14 @@ def _hist_transformation(inp, bad):
             T.set(cur.copy())
         elif op == "inv":
             Ti = T.inv()
-            differential(Ti, np.linalg.inv(cur), what + " -> inverse object")
+            differential(Ti, np.linalg.inv(cur), what + " -> inverse object", projective=True)
         elif op == "product":
             other = P.Transformation(fresh_mats(1)[0])
             _eig_queries(other, target)
             img = T @ other                 # apply: copy(other) + set
-            differential(img, np.asarray(other.proj_data) @ cur, what + " -> T @ other")
+            differential(img, np.asarray(other.proj_data) @ cur, what + " -> T @ other", projective=True)
             img2 = other @ T
-            differential(img2, cur @ np.asarray(other.proj_data), what + " -> other @ T")
+            differential(img2, cur @ np.asarray(other.proj_data), what + " -> other @ T", projective=True)
         differential(T, cur, what)
         if len(bad) >= 3:
             return
@@ -1582,6 +1610,8 @@ def run_kw16(inp):
     got = np.asarray(got)
     if got.dtype == object:
         return {"object_dtype": True}
+    if f in ("affine_linear_map", "affine_translation") and got.shape == ref.shape and got[c0, c0] != 0:
+        got = got / got[c0, c0]            # a projective transformation is defined up to a non-zero scalar
     return {"err": float("inf") if got.shape != ref.shape else float(np.max(np.abs(wide(got) - ref) / (1 + np.abs(ref)))) * (1e-10 / tol)}
 
 
